@@ -282,6 +282,64 @@ theorem applyElems_inv (es : List (Elem ℝ)) (sp : List (Chan ℝ))
     · exact ih c hc
 
 
+/-! ### several `update_snr` calls on the same receiver (automatic mode selection) -/
+
+theorem update_raw (t : TrxFig ℝ) (baud : ℝ) (args : List ℝ) :
+    (t.update baud args).rawOsnr = t.rawOsnr ∧ (t.update baud args).rawNli = t.rawNli ∧
+    (t.update baud args).rawSnr = t.rawSnr ∧ (t.update baud args).rawOsnr01 = t.rawOsnr01 ∧
+    (t.update baud args).rawSnr01 = t.rawSnr01 ∧ (t.update baud args).nli = t.nli := ⟨rfl, rfl, rfl, rfl, rfl, rfl⟩
+
+/-- **history-free**: a further `update_snr` call gives exactly what the same call gives on the freshly recorded
+figures – penalties are never cumulated, whatever calls came before -/
+theorem update_history_free (t : TrxFig ℝ) (baud : ℝ) (a1 a2 : List ℝ) :
+    (t.update baud a1).update baud a2 = t.update baud a2 := rfl
+
+theorem updates_snoc (t : TrxFig ℝ) (baud : ℝ) (calls : List (List ℝ)) (a : List ℝ) :
+    t.updates baud (calls ++ [a]) = (t.updates baud calls).update baud a := by
+  simp [TrxFig.updates, List.foldl_append]
+
+theorem updates_raw (t : TrxFig ℝ) (baud : ℝ) (calls : List (List ℝ)) :
+    (t.updates baud calls).rawOsnr = t.rawOsnr ∧ (t.updates baud calls).rawSnr = t.rawSnr ∧
+    (t.updates baud calls).rawOsnr01 = t.rawOsnr01 ∧ (t.updates baud calls).rawSnr01 = t.rawSnr01 ∧
+    (t.updates baud calls).nli = t.nli := by
+  induction calls generalizing t with
+  | nil => exact ⟨rfl, rfl, rfl, rfl, rfl⟩
+  | cons a r ih =>
+    have := ih (t.update baud a)
+    exact this
+
+/-- after any number of `update_snr` calls the reported figures are those of the LAST call applied to the raw ones -/
+theorem updates_last (c : Chan ℝ) (baud : ℝ) (calls : List (List ℝ)) (a : List ℝ) :
+    ((TrxFig.calc c baud).updates baud (calls ++ [a])).osnr = (updateSnr c baud a).1 ∧
+    ((TrxFig.calc c baud).updates baud (calls ++ [a])).nli = (updateSnr c baud a).2.1 ∧
+    ((TrxFig.calc c baud).updates baud (calls ++ [a])).snr = (updateSnr c baud a).2.2 := by
+  rw [updates_snoc]
+  obtain ⟨h1, h2, _, _, h5⟩ := updates_raw (TrxFig.calc c baud) baud calls
+  simp only [TrxFig.update, h1, h2, h5]
+  exact ⟨rfl, rfl, rfl⟩
+
+/-- **1/GSNR = 1/OSNR_ASE + 1/SNR_NLI holds for the reported figures after every call of every call sequence** -/
+theorem updates_harmonic (c : Chan ℝ) (baud : ℝ) (calls : List (List ℝ)) (hb : 0 < baud)
+    (hs : 0 < c.s) (ha : 0 < c.a) (hn : 0 < c.n) :
+    db2lin (-((TrxFig.calc c baud).updates baud calls).snr) =
+      db2lin (-((TrxFig.calc c baud).updates baud calls).osnr) +
+      db2lin (-((TrxFig.calc c baud).updates baud calls).nli) := by
+  rcases List.eq_nil_or_concat calls with rfl | ⟨init, a, rfl⟩
+  · exact gsnr_harmonic_db c hs ha hn
+  · rw [List.concat_eq_append]
+    obtain ⟨h1, h2, h3⟩ := updates_last c baud init a
+    rw [h1, h2, h3]
+    exact updateSnr_harmonic c baud a hb hs ha hn
+
+/-- the 0.1 nm figures stay the signal-bandwidth ones shifted by `lin2db(12.5e9/baud)` in inverse linear units: the same
+lumped penalty, referred to 0.1 nm, is added to both -/
+theorem update_01nm (t : TrxFig ℝ) (baud : ℝ) (args : List ℝ) :
+    db2lin (-(t.update baud args).snr01) = db2lin (-t.rawSnr01) + db2lin (-(snrAdded args)) ∧
+    db2lin (-(t.update baud args).osnr01) = db2lin (-t.rawOsnr01) + db2lin (-(snrAdded args)) := by
+  have h := fun x => snrSum_lin x (12500000000:ℝ) (snrAdded args) (by norm_num)
+  simp only [TrxFig.update, refBw, Nat.cast_ofNat]
+  constructor <;> rw [h] <;> simp
+
 /-! ### band split and merge -/
 
 /-- a selection keeps every kept channel as it is (nothing else appears) -/
